@@ -124,6 +124,34 @@ def witness_cases():
     return out
 
 
+def gen_depth_ratios(ctx, n):
+    """boundary stream for (8): depth / pixel ratios on and around the ties of `round`, default depth count,
+    columns that cross several cells of different values"""
+    r = ctx.rng
+    cases = []
+    ratios = [Fraction(3, 4), Fraction(5, 4), Fraction(3, 2), Fraction(7, 4), Fraction(5, 2), Fraction(11, 4), Fraction(7, 2), Fraction(9, 2),
+              Fraction(1, 2), Fraction(5, 8), Fraction(13, 8), Fraction(2), Fraction(3)]
+    for t in range(n):
+        nb = r.choice([4, 8])
+        m = M.uniform_mesh(3, nb, den=r.choice([nb, 2 * nb, 4 * nb]))
+        perm = list(range(nb ** 3))
+        r.shuffle(perm)
+        c = c03.base_case(r, m, [{"key": "density", "kind": "scalar", "unit": "g/cm**3", "vals": [float(p + 1) for p in perm]}])
+        den = m["den"]
+        npx = r.choice([2, 4])
+        ratio = ratios[t % len(ratios)]
+        pix = Fraction(r.choice([1, 2, 4]))                  # pixel size in lattice units (cell size 2)
+        o = [Fraction(nb) + Fraction(r.choice([0, 1, 3]), 4) for _ in range(3)]
+        d = r.choice("xyz")
+        c.update(origin=[float(t_ / den) for t_ in o], direction={"kind": "letter", "s": d},
+                 dx={"v": float(pix * npx / den), "unit": "cm"}, dz={"v": float(ratio * pix / den), "unit": "cm"},
+                 res=r.choice([npx, {"x": npx, "y": npx}]), op=r.choice(["min", "max", "nansum", "mean", "sum", "nanmean"]),
+                 tags=["depth_ratio", "3d", "letter", "generic", f"dz/pixel={ratio}", "default_depth_count"])
+        c["tags"] = ["depth_ratio", "3d", "letter", "generic", "dx/s=" + str(pix * npx / 2), c["op"], f"dz/pixel={ratio}", "default"]
+        cases.append(c)
+    return cases
+
+
 def depth_count_lane(ctx, out, dist):
     """(8) Python `round` vs MapModel.roundHalfEven, on ties and around them"""
     r = ctx.rng
@@ -145,12 +173,12 @@ def depth_count_lane(ctx, out, dist):
 def run(ctx):
     out = Outcome()
     src = M.detect_source()
-    sel = {"slab": src["slab"], "radial": src["radial"]}
+    sel = {k: src[k] for k in ("slab", "radial", "depth", "depth2d")}
     out.extra["extraction"] = {"map.py": src}
     out.extra["geometry_driver"] = driver_kind()
     dist = {}
     quick = ctx.tier == "quick"
-    cases = witness_cases() + gen_thick(ctx, 130 if quick else 2500)
+    cases = witness_cases() + gen_thick(ctx, 120 if quick else 1000) + gen_depth_ratios(ctx, 26 if quick else 260)
     recs = c03.evaluate(ctx, out, cases, sel, dist, prop=PROP)
     c03.thread_lane(ctx, out, recs, dist)
     c03.model_lanes(ctx, out, recs, sel, dist)
